@@ -35,6 +35,20 @@ EXHAUSTIVE = {"quick": False, "thorough": True}
 FMTS = ["h5", "xtc", "xtc9", "trr", "dcd", "dcd0", "dcd4", "nc", "dtr", "mdcrd", "mdcrd-nobox", "xyz", "xyz.gz", "lammpstrj", "gro", "pdb", "pdb.gz"]
 # dcd0 / dcd4: DCD files as other programs write them (stale header count; CHARMM 4-dimensional), see vlib/gen/files.py
 SUBSETS = {0: None, 1: [0, 2, 3], 2: [1], 3: [0, 1, 2, 3, 4, 5]}
+# ai == 4: a seeded random strictly increasing subset of 4..6 atoms (irregular gaps; readers may special-case regular ones)
+# ai == 5: a regular subset (every other atom) — the class a reader may turn into a slice
+
+
+def subset_for(case):
+    ai = case["ai"]
+    if ai in SUBSETS:
+        return SUBSETS[ai]
+    na = 6 if case["fmt"] == "xtc9" else 12
+    if ai == 5:
+        return list(range(0, na, 2))
+    rng = common.rng_for("C02ai", case["fmt"], case["n"], case.get("stride", 0), case.get("chunk", 0), case.get("skip", 0), case.get("frame", 0))
+    k = int(rng.integers(4, min(6, na - 1) + 1))
+    return sorted(int(x) for x in rng.choice(na, size=k, replace=False))
 FLOORS = {"quick": {"load.stride+atoms": 300, "load_frame": 150, "iterload.concat": 800, "iterload.chunk-sizes": 800,
                     "load.list": 80}}
 ASSUMPTIONS = ["md.load(file) of the whole file is the reference (its fidelity to the written data is C01's subject); it is "
@@ -89,17 +103,17 @@ def _gen_cases(tier, seed):
                 for chunk in range(0, n + 3):
                     for stride in range(1, 6):
                         for skip in range(0, n + 1):
-                            for ai in (0, 1, 2):
-                                if ai and (chunk + stride + skip) % 3 != ai:  # thin the subsets 1,2 to a third each
+                            for ai in (0, 1, 4):
+                                if ai and (chunk + stride + skip) % 3 != (1 if ai == 1 else 2):  # thin the subsets to a third each
                                     continue
                                 yield dict(i=i, fmt=fmt, n=n, op="iterload", chunk=chunk, stride=stride, skip=skip, ai=ai)
                                 i += 1
                 for stride in range(1, 8):
-                    for ai in (0, 1, 2, 3):
+                    for ai in (0, 1, 2, 3, 4, 5):
                         yield dict(i=i, fmt=fmt, n=n, op="load", stride=stride, ai=ai)
                         i += 1
                 for fr in range(n):
-                    yield dict(i=i, fmt=fmt, n=n, op="frame", frame=fr, ai=fr % 3)
+                    yield dict(i=i, fmt=fmt, n=n, op="frame", frame=fr, ai=[0, 1, 4, 2, 5][fr % 5])
                     i += 1
             for k in (1, 2, 3):
                 for stride in (1, 2, 3):
@@ -113,7 +127,7 @@ def _gen_cases(tier, seed):
         fmt = FMTS[j % len(FMTS)]
         n = int(rng.choice([1, 2, 3, 5, 7, 10, 12]))
         op = ["iterload", "iterload", "iterload", "load", "frame", "list"][int(rng.integers(6))]
-        c = dict(i=j, fmt=fmt, n=n, op=op, ai=int(rng.integers(0, 4)))
+        c = dict(i=j, fmt=fmt, n=n, op=op, ai=int(rng.integers(0, 6)))
         if op == "iterload":
             c.update(chunk=int(rng.integers(0, n + 3)), stride=int(rng.choice([1, 1, 2, 3, 4, 5])),
                      skip=int(rng.choice([0, 0, int(rng.integers(0, n + 1))])))
@@ -259,7 +273,7 @@ def _run_case(case, ctx):
     if not good:
         ctx.skip("reference", f"{fmt}: md.load of the whole file does not identify frames 0..n-1 (C01's subject)")
         return
-    idx = SUBSETS[case["ai"]]
+    idx = subset_for(case)
     aik = {} if idx is None else {"atom_indices": np.array(idx)}
     ctx.observe("format", fmt)
     ctx.observe("op", case["op"])
